@@ -56,6 +56,18 @@ const PLACEMENTS = {
   regexp_member: P(['x = new o.RegExp(', 0, ');']),
   regexp_no_args_then_lit: P(['x = [new RegExp, ', 0, '];']),
   const_init: P(['const n1 = ', 0, ';'], [{ ident: 'n1' }]),
+  // binding patterns: the literal initialises no single variable
+  pattern_obj_init: P(['const { length: q1 } = ', 0, ';']),
+  pattern_arr_init: P(['var [c1, c2] = ', 0, ';']),
+  pattern_rest_init: P(['let { 0: q2, ...q3 } = ', 0, ';']),
+  pattern_obj_then_ident: P(['const { length: q6 } = ', 0, ', n18 = ', 1, ';'], [{}, { ident: 'n18' }]),
+  pattern_default: P(['const { q4 = ', 0, ' } = o;']),
+  pattern_arr_default: P(['let [q7 = ', 0, '] = [];']),
+  assign_pattern_default: P(['[x = ', 0, '] = [];']),
+  param_default: P(['x = (function (q5 = ', 0, ') { return q5 })();']),
+  for_of_literal: P(['for (const ch of ', 0, ') x = ch;']),
+  for_of_pattern_default: P(['for (const { q8 = ', 0, ' } of [o]) x = q8;']),
+  catch_pattern_default: P(['try { throw o } catch ({ q9 = ', 0, ' }) { x = q9 }']),
   let_init: P(['let n2 = ', 0, ';'], [{ ident: 'n2' }]),
   var_two: P(['var n3 = ', 0, ', n4 = ', 1, ';'], [{ ident: 'n3' }, { ident: 'n4' }]),
   let_after_uninitialised: P(['let u1, n11 = ', 0, ';'], [{ ident: 'n11' }]),
@@ -302,8 +314,13 @@ async function check (leaf, resps) {
   const res = { nontrivial: true, outcome: 'ok', violations: [], distinctKey: prog.text + '|' + p.literals }
   const v = (rule, sig, detail) => res.violations.push({ rule, sig, detail: detail + '\n  leaf: ' + leaf.key + '\n' + prog.text.slice(0, 500) })
   const [r, r0] = resps
-  if (r.status !== 'ok') { res.outcome = 'rejected:' + r.status; res.nontrivial = false; return res }
   const enabled = p.literals !== false
+  // every generated program is valid JavaScript: a refusal (or a panic) means no report where one is due
+  if (r.status !== 'ok') {
+    res.outcome = 'rejected:' + r.status
+    if (enabled) { v('no-report', 'program-refused:' + r.status, `the program is valid but the call ends with ${r.status}: ${String(r.error || r.panic || '').slice(0, 160)}`); res.outcome = 'violation' } else res.nontrivial = false
+    return res
+  }
   if (!enabled) {
     if (r.literalsResult != null) v('report-when-disabled', 'disabled', 'literals=false but a literalsResult is produced')
     res.outcome = 'disabled'
@@ -337,7 +354,8 @@ async function check (leaf, resps) {
     if (at !== expectText) { v('location-not-on-literal', p.place, `reported position ${line}:${col} does not hold the literal (text there: ${JSON.stringify(at.slice(0, 30))})`); break }
   }
   // instrumentation never adds, removes, duplicates or relocates entries
-  if (r0.status === 'ok' && r0.literalsResult) {
+  if (r0.status !== 'ok' || !r0.literalsResult) v('no-report', 'nothing-enabled', `literal collection enabled and no operation configured: ${r0.status !== 'ok' ? 'the call ends with ' + r0.status : 'no literalsResult'}`)
+  else {
     const g0 = new Set(reported(r0))
     if (g0.size !== gs.size || Array.from(gs).some((x) => !g0.has(x))) v('instrumentation-changes-report', p.place, `report under the full configuration differs from the report with nothing enabled (${gs.size} vs ${g0.size} locations)`)
   }
@@ -349,6 +367,9 @@ async function check (leaf, resps) {
 
 module.exports = {
   id: 'C14',
+  // (C13 feeds every placement once to the totality check)
+  placementNames: () => Object.keys(PLACEMENTS).concat(Object.keys(TOP_PLACEMENTS), Object.keys(COMPOSED)),
+  buildProgram,
   build,
   requests,
   check,
